@@ -18,6 +18,9 @@ PROPS = {}
 for _f in sorted(glob.glob(os.path.join(VERIF, "props", "C*.json"))):
     PROPS[os.path.basename(_f)[:-5]] = json.load(open(_f, encoding="utf-8"))
 
+# properties whose checks have been integrated and are claimed in MANIFEST.json
+CLAIMED = [l.strip() for l in open(os.path.join(VERIF, "props", "CLAIMED")) if l.strip() and not l.startswith("#")]
+
 # reasons for properties that are not claimed (kept current by hand; empty when all are claimed)
 _WIP = "check not yet built (design: DESIGN.md section 4); will be claimed once its model, theorems and correspondence run"
 NOT_APPLICABLE = {("C%02d" % i): _WIP for i in range(1, 21)}
